@@ -178,7 +178,14 @@ def lazy_parallel_map(
             return ex.submit(_dill_mp_helper, payload)
 
         def result(job):
-            return job.result()
+            try:
+                return job.result()
+            finally:
+                # Break the reference cycle: job -> exception -> traceback
+                # -> this frame -> job. Otherwise the generator frame in the
+                # traceback (and the iterator of the input, e.g. the thread
+                # of a prefetch) stays alive until the garbage collector runs.
+                job = None
 
         def terminate(ex: concurrent.futures.Executor, q):
             try:
@@ -204,7 +211,14 @@ def lazy_parallel_map(
             return ex.submit(func, *args, **kwargs)
 
         def result(job: concurrent.futures.Future):
-            return job.result()
+            try:
+                return job.result()
+            finally:
+                # Break the reference cycle: job -> exception -> traceback
+                # -> this frame -> job. Otherwise the generator frame in the
+                # traceback (and the iterator of the input, e.g. the thread
+                # of a prefetch) stays alive until the garbage collector runs.
+                job = None
 
         def terminate(ex: concurrent.futures.Executor, q):
             # From https://docs.python.org/3/library/concurrent.futures.html
